@@ -877,8 +877,13 @@ fn enabled_c20(w: &RouterWorld, cfg: &Cfg, v: &mut Vec<(Act, u8)>) {
                     v.push((Act::Pub { c: p, t: 0, qos: q, retain: false, empty: false, props: k as u8 }, 0));
                 }
             } else {
-                for k in [0u8, 2, 64, 65, 128] {
-                    v.push((Act::Pub { c: p, t: 0, qos: q, retain: q == 1, empty: false, props: k }, 0));
+                for t in 0..cfg.topics.len() as u8 {
+                    for k in [0u8, 2, 64, 65, 128] {
+                        if t > 0 && k != 0 && k != 65 {
+                            continue;
+                        }
+                        v.push((Act::Pub { c: p, t, qos: q, retain: q == 1, empty: false, props: k }, 0));
+                    }
                 }
             }
         }
